@@ -49,7 +49,7 @@ Section ListObjects.
 
   (* 2. which candidates lead to a trySendObject call *)
   Definition confirmed (check : A -> bool) (c : cand) : bool :=
-    if is_nofurther (snd c) then true else true.
+    if is_nofurther (snd c) then true else check (fst c).
 
   Definition attempts (check : A -> bool) (cs : list cand) : list A :=
     map fst (filter (confirmed check) (dedup_cands [] cs)).
